@@ -1460,3 +1460,135 @@ def rule_py_self_attrs(rep, floor=500):
                 seen.add((rel, n.attr))
                 r.check(n.attr in ld, "%s:lookup.%s" % (rel, n.attr), m.where(n), "%s uses lookup.%s, but the class Lookup defines no such attribute (it has %s)" % (rel, n.attr, sorted(x for x in ld if not x.startswith("_"))[:8]), detail="defined by Lookup")
     return r.done()
+
+
+def rule_py_behaviorof_args(rep, floor=60):
+    r = rep.rule("FORWARD.py-behaviorof", "ak._util.behaviorof(...) is given the caller's own arguments, never a local that was assigned from to_layout(...): behaviorof only looks at high-level ak.Array / ak.Record / ArrayBuilder objects, "
+                 "so on layouts it always answers None and the behavior of the inputs is silently dropped from the result", floor=floor)
+    for rel in [x for x in pf.all_modules() if "generated_parser" not in x]:
+        m = pf.module(rel)
+        for fd in m.tree.body:
+            if not isinstance(fd, ast.FunctionDef):
+                continue
+            params = {a.arg for a in fd.args.args + fd.args.kwonlyargs} | ({fd.args.vararg.arg} if fd.args.vararg else set())
+            layouts = {}
+            for s_ in ast.walk(fd):
+                if isinstance(s_, ast.Assign):
+                    v = s_.value
+                    is_tl = any(isinstance(c, ast.Call) and (pf.dotted(c.func) or "").endswith("to_layout") for c in ast.walk(v))
+                    if is_tl:
+                        for t in s_.targets:
+                            for n in ast.walk(t):
+                                if isinstance(n, ast.Name):
+                                    layouts.setdefault(n.id, s_.lineno)
+            k = 0
+            for c in ast.walk(fd):
+                if isinstance(c, ast.Call) and (pf.dotted(c.func) or "").endswith("behaviorof"):
+                    k += 1
+                    bad = [a.id for a in c.args if isinstance(a, ast.Name) and a.id in layouts and layouts[a.id] < c.lineno and not (a.id in params and layouts[a.id] > c.lineno)]
+                    # a parameter rebound to its own layout (array = to_layout(array)) before the call is a layout too
+                    r.check(not bad, "%s:%s#behaviorof%d" % (rel, fd.name, k), m.where(c), "%s in %s calls `%s` on %s, which %s assigned from to_layout(...): the answer is always None" % (
+                        fd.name, rel, ast.unparse(c)[:60], bad, "were" if len(bad) > 1 else "was"), detail="called on the original arguments")
+    return r.done()
+
+
+def rule_py_simplify_recheck(rep, floor=5):
+    r = rep.rule("FAMILY.py-simplify-recheck", "after `v = v.simplify()` the Python layer tests the class of v again before using class-specific attributes: simplify() of a Byte/BitMasked/Union array may hand back a node of another class "
+                 "(IndexedOptionArray64, a merged content), which has neither .mask nor .tags", floor=floor)
+    for rel in [x for x in pf.all_modules() if "generated_parser" not in x]:
+        m = pf.module(rel)
+        k = 0
+        for n in ast.walk(m.tree):
+            for fld in ("body", "orelse"):
+                b = getattr(n, fld, None)
+                if not (isinstance(b, list) and b and isinstance(b[0], ast.stmt)):
+                    continue
+                for i, st in enumerate(b):
+                    if not (isinstance(st, ast.Assign) and len(st.targets) == 1 and isinstance(st.targets[0], ast.Name) and isinstance(st.value, ast.Call) and isinstance(st.value.func, ast.Attribute)
+                            and st.value.func.attr == "simplify" and not st.value.args and not st.value.keywords and isinstance(st.value.func.value, ast.Name) and st.value.func.value.id == st.targets[0].id):
+                        continue
+                    v = st.targets[0].id
+                    k += 1
+                    nxt = b[i + 1] if i + 1 < len(b) else None
+                    if nxt is None:
+                        # last statement of an arm: the re-test follows the enclosing if
+                        par = getattr(n, "_parent", None)
+                        sib = getattr(par, "body", None) if par is not None else None
+                        if isinstance(sib, list) and n in sib and sib.index(n) + 1 < len(sib):
+                            nxt = sib[sib.index(n) + 1]
+                    ok = isinstance(nxt, ast.If) and ("isinstance(%s," % v) in ast.unparse(nxt.test)
+                    ok = ok or isinstance(nxt, ast.Return)
+                    r.check(ok, "%s:%s#simplify%d" % (rel, getattr(_owner_func(st), "name", "<module>"), k), m.where(st), "in %s `%s` is not followed by a test of isinstance(%s, ...): the code below uses attributes of the class %s had before simplify()" % (
+                        rel, ast.unparse(st), v, v), detail="class re-tested")
+    return r.done()
+
+
+def rule_py_numpy_rebuild(rep, floor=4):
+    r = rep.rule("META.py-numpy-rebuild", "a recursively_apply callback that replaces a NumpyArray leaf (an `ak.layout.NumpyArray(...)` built under `isinstance(layout, ak.layout.NumpyArray)`) passes identities and parameters explicitly "
+                 "(layout.parameters, or a deliberate None): a leaf rebuilt from the buffer alone loses __array__='char', which makes every string in the array invalid", floor=floor)
+    for rel in [x for x in pf.all_modules() if "generated_parser" not in x and not x.startswith("_connect/_jax")]:   # the experimental JAX connector only handles numeric leaves
+        m = pf.module(rel)
+        k = 0
+        for c in ast.walk(m.tree):
+            if isinstance(c, ast.Call) and (pf.dotted(c.func) or "") == "ak.layout.NumpyArray":
+                under = [t for t, inb in pf.enclosing_tests(c) if inb and "isinstance(layout, ak.layout.NumpyArray)" in ast.unparse(t)]
+                if not under:
+                    continue
+                k += 1
+                ok = len(c.args) >= 3 or any(kw.arg == "parameters" for kw in c.keywords)
+                r.check(ok, "%s:%s#rebuild%d" % (rel, getattr(_owner_func(c), "name", "<module>"), k), m.where(c), "%s rebuilds a NumpyArray leaf as `%s` without identities/parameters" % (rel, ast.unparse(c)[:70]), detail="identities and parameters given")
+    return r.done()
+
+
+def rule_py_union_content_index(rep, floor=1):
+    r = rep.rule("INDEX.py-union-content", "inside `for tag, content in enumerate(u.contents)` a per-content array (content.bytemask(), a conversion of content) that is scattered into the union's slots `B[tags == tag] = ...` "
+                 "is first taken through the union's index (`...[index[tags == tag]]`): slot i of the union refers to content[index[i]], not to the i-th item of the content", floor=floor)
+    for rel in [x for x in pf.all_modules() if "generated_parser" not in x]:
+        m = pf.module(rel)
+        k = 0
+        for lp in ast.walk(m.tree):
+            if not (isinstance(lp, ast.For) and isinstance(lp.iter, ast.Call) and isinstance(lp.iter.func, ast.Name) and lp.iter.func.id == "enumerate" and lp.iter.args
+                    and isinstance(lp.iter.args[0], ast.Attribute) and lp.iter.args[0].attr == "contents" and isinstance(lp.target, ast.Tuple) and len(lp.target.elts) == 2
+                    and all(isinstance(e, ast.Name) for e in lp.target.elts)):
+                continue
+            T, C = lp.target.elts[0].id, lp.target.elts[1].id
+            sels = {a_.targets[0].id for a_ in ast.walk(lp) if isinstance(a_, ast.Assign) and len(a_.targets) == 1 and isinstance(a_.targets[0], ast.Name) and isinstance(a_.value, ast.Compare)
+                    and T in {n.id for n in ast.walk(a_.value) if isinstance(n, ast.Name)}}
+            for a_ in ast.walk(lp):
+                if not (isinstance(a_, ast.Assign) and len(a_.targets) == 1 and isinstance(a_.targets[0], ast.Subscript)):
+                    continue
+                sl = a_.targets[0].slice
+                is_sel = (isinstance(sl, ast.Compare) and T in {n.id for n in ast.walk(sl) if isinstance(n, ast.Name)}) or (isinstance(sl, ast.Name) and sl.id in sels)
+                if not is_sel or C not in {n.id for n in ast.walk(a_.value) if isinstance(n, ast.Name)}:
+                    continue
+                k += 1
+                via = any(isinstance(s_, ast.Subscript) and "index" in {n.id for n in ast.walk(s_.slice) if isinstance(n, ast.Name)} for s_ in ast.walk(a_.value))
+                r.check(via, "%s:%s#scatter%d" % (rel, getattr(_owner_func(lp), "name", "<module>"), k), m.where(a_), "in %s `%s` scatters a per-content array into the slots of tag %s by position: the slots refer to the content through the union's index" % (
+                    rel, ast.unparse(a_)[:70], T), detail="taken through index[...]")
+    return r.done()
+
+
+def rule_py_regular_length(rep, floor=20):
+    r = rep.rule("ROLE.py-regular-length", "the third argument of ak.layout.RegularArray(content, size, zeros_length) in the Python layer is the number of lists of the node being built: when it is a local variable, that variable is not computed from the "
+                 "lengths of contents (`.content`, the `nextinputs` handed to the next level) - for size 0 the C++ constructor takes it as the array's length", floor=floor)
+    for rel in [x for x in pf.all_modules() if "generated_parser" not in x]:
+        m = pf.module(rel)
+        k = 0
+        for c in ast.walk(m.tree):
+            if not (isinstance(c, ast.Call) and (pf.dotted(c.func) or "") == "ak.layout.RegularArray" and len(c.args) >= 3):
+                continue
+            k += 1
+            a = c.args[2]
+            bad = None
+            if isinstance(a, ast.Name):
+                fd = _owner_func(c)
+                while fd is not None and not isinstance(fd, ast.FunctionDef):
+                    fd = _owner_func(fd)
+                defs = [s_.value for s_ in ast.walk(fd) if isinstance(s_, ast.Assign) and any(isinstance(t, ast.Name) and t.id == a.id for t in s_.targets)] if fd is not None else []
+                for d_ in defs:
+                    txt = ast.unparse(d_)
+                    if "nextinputs" in txt or ".content" in txt:
+                        bad = txt
+            r.check(bad is None, "%s:%s#regular%d" % (rel, getattr(_owner_func(c), "name", "<module>"), k), m.where(c), "%s builds `%s` with zeros_length %s = `%s`: that measures the flattened contents, not the number of lists" % (
+                rel, ast.unparse(c)[:60], ast.unparse(a), (bad or "")[:70]), detail="outer length")
+    return r.done()
